@@ -598,3 +598,12 @@ Proof.
     unfold C03.step_spec. rewrite E1, E2, He. reflexivity.
   - apply andb_true_iff in Hh as [H1 H2]. now apply C03_single_proof.
 Qed.
+
+(* the predicate only speaks about plain environments, so the hypothesis can be dropped *)
+Theorem C03_model_any_env : forall c w e um n all, C03_hyp c w n all = true ->
+  C03.step_spec c w (view_of_model c w e (CUmount n all) um) = true.
+Proof.
+  intros c w e um n all Hh. destruct (plain_env e) eqn:He; [now apply C03_model_proof|].
+  destruct (view_fields c w e (CUmount n all) um) as (E1 & E2 & _).
+  unfold C03.step_spec. rewrite E1, E2, He. reflexivity.
+Qed.
